@@ -169,13 +169,14 @@ def cases(rng, tier, feats, drv_ok):
     if HX and 'full' in feats:
         shapes = [(i, l, w) for i in ('0', '1', '3', '-') for l in ('-', '0', '1', '100') for w in ('-', '0', '1', '9')]
         if tier == 'quick': shapes = [sh for sh in shapes if sh.count('-') >= 1]
-        fo, _ = fw.run_split(lambda ls, **kw: fw.run_hx(HX, ls), [f'forge_zero_knobs 0 10 14 {i} {l} {w}' for i, l, w in shapes])
+        shapes = [sh + ('-',) for sh in shapes] + [('-', '-', '-', cc) for cc in ('0', '1', '3', '4', '10')]     # composition tables of other widths (coverage: the DEEP length checks)
+        fo, _ = fw.run_split(lambda ls, **kw: fw.run_hx(HX, ls), ['forge_zero_knobs 0 10 14 %s %s %s %s' % sh for sh in shapes])
         for sh, o in zip(shapes, fo):
-            nm = 'inner_sent=%s last_len=%s layers_sent=%s' % sh
+            nm = 'inner_sent=%s last_len=%s layers_sent=%s composition_columns=%s' % sh
             if o.startswith('ok '):
                 out.append({'line': f'verify recursive 32 {o[3:]}', 'kind': 'forged-shape', 'name': 'fixture', 'pos': nm})
             elif o.startswith('panic'):
-                out.append({'line': 'forge_zero_knobs 0 10 14 %s %s %s' % sh, 'kind': 'forged-shape', 'name': 'fixture', 'pos': nm + ' (panic while forging, inside stark_commit)', 'hxonly': True})
+                out.append({'line': 'forge_zero_knobs 0 10 14 %s %s %s %s' % sh, 'kind': 'forged-shape', 'name': 'fixture', 'pos': nm + ' (panic while forging, inside stark_commit)', 'hxonly': True})
     # the dynamic layout's autogenerated assertion list alone, on adversarial parameter vectors (no panic: Props/C18dyn; model agreement)
     if 'all_layouts' in feats:
         vals = [0, 1, 2, 3, 4, 8, 16, 64, 256, 1 << 12, 1 << 16, 1 << 20, 1 << 31, 1 << 32, 1 << 63, (1 << 64) - 1]
